@@ -93,7 +93,11 @@ def gen_spec(rng, profile):
         ncols = min(ncols, 4)
     if target > 20000:
         ncols = min(ncols, 3)
-    wl = gen_lines_for(rng, target, s, ncols=ncols, malformed=rng.choice(profile.get('malformed', [0.0])), opts=profile.get('colopts'))
+    colopts = profile.get('colopts')
+    if target > 20000:
+        # the estimators are O(#distinct values x rows): very large batches only with low-cardinality columns
+        colopts = {'kind': ['lowcard', 'balanced-binary', 'noisy-label', 'sparse', 'constant', 'numeric']}
+    wl = gen_lines_for(rng, target, s, ncols=ncols, malformed=rng.choice(profile.get('malformed', [0.0])), opts=colopts)
     heuristic = rng.choice(profile.get('heuristics', ['MI-numba-randomized']))
     if big and heuristic in ('MI', 'AMI'):
         heuristic = 'MI-numba-randomized'
